@@ -1535,7 +1535,14 @@ def _encode_host(host: str, validate_host: bool) -> str:
             ) from None
         return host
 
-    return _idna_encode(host)
+    host = _idna_encode(host)
+    if validate_host and (invalid := NOT_REG_NAME.search(host)):
+        # IDNA (UTS #46) mapping can produce delimiters, e.g. U+FF0F -> "/"
+        value, pos = invalid.group(), invalid.start()
+        raise ValueError(
+            f"Host {host!r} cannot contain {value!r} (at position {pos})"
+        ) from None
+    return host
 
 
 @rewrite_module
